@@ -101,6 +101,34 @@ theorem applyUpd_events (u : Nat → Option Int) (args : List (Int × Option Loc
         · obtain ⟨l', v', h1, h2⟩ := ih _ _ e he
           exact ⟨l', v', h1, List.mem_cons_of_mem _ h2⟩
 
+/-- the masked version only stores into by-reference arguments, too -/
+theorem applyUpdM_events (u : Nat → Option Int) (args : List (Int × Option Loc)) (p m : Nat) (σ : Store) :
+    ∀ e ∈ (applyUpdM u args p m σ).2, ∃ l v, e = .wr l ∧ (v, some l) ∈ args := by
+  induction args generalizing p m σ with
+  | nil => intro e he; simp [applyUpdM] at he
+  | cons hd tl ih =>
+    obtain ⟨v, ol⟩ := hd
+    cases ol with
+    | none =>
+      intro e he
+      simp only [applyUpdM] at he
+      obtain ⟨l, v', h1, h2⟩ := ih _ _ _ e he
+      exact ⟨l, v', h1, List.mem_cons_of_mem _ h2⟩
+    | some l =>
+      intro e he
+      simp only [applyUpdM] at he
+      split at he
+      · split at he
+        · obtain ⟨l', v', h1, h2⟩ := ih _ _ _ e he
+          exact ⟨l', v', h1, List.mem_cons_of_mem _ h2⟩
+        · simp only [List.mem_cons] at he
+          rcases he with rfl | he
+          · exact ⟨l, v, rfl, List.mem_cons_self⟩
+          · obtain ⟨l', v', h1, h2⟩ := ih _ _ _ e he
+            exact ⟨l', v', h1, List.mem_cons_of_mem _ h2⟩
+      · obtain ⟨l', v', h1, h2⟩ := ih _ _ _ e he
+        exact ⟨l', v', h1, List.mem_cons_of_mem _ h2⟩
+
 /-- a reference that carries subscript expressions -/
 def indexed : Expr → Bool
   | .idx1 _ _ => true | .idx2 _ _ _ => true | .idxs _ _ _ => true
@@ -116,23 +144,25 @@ theorem evalT_cons_false (ω : Oracle) (tb : Nat → IAttr) (e rest : Expr) (σ 
          (evalT ω tb rest false (evalT ω tb e false σ).st).args⟩ := by
   cases e <;> simp [evalT]
 
-/-- with the first argument skipped: its subscripts are evaluated (store `σ'`, events `E`);
-when it carries none, nothing is -/
+/-- with the first argument skipped only its subscripts are evaluated (`subsT`) -/
 theorem evalT_cons_true (ω : Oracle) (tb : Nat → IAttr) (e rest : Expr) (σ : Store) :
-    ∃ (σ' : Store) (E : List Event), (indexed e = false → σ' = σ ∧ E = []) ∧
-      evalT ω tb (.cons e rest) true σ =
-        ⟨0, (evalT ω tb rest false σ').st, E ++ (evalT ω tb rest false σ').ev, none,
-         (0, none) :: (evalT ω tb rest false σ').args⟩ := by
+    evalT ω tb (.cons e rest) true σ =
+      ⟨0, (evalT ω tb rest false (subsT ω tb e σ).1).st,
+       (subsT ω tb e σ).2 ++ (evalT ω tb rest false (subsT ω tb e σ).1).ev, none,
+       (0, none) :: (evalT ω tb rest false (subsT ω tb e σ).1).args⟩ := by
+  cases e <;> simp [evalT, subsT]
+
+theorem subsT_plain (ω : Oracle) (tb : Nat → IAttr) (e : Expr) (σ : Store) (h : indexed e = false) :
+    subsT ω tb e σ = (σ, []) := by
+  cases e <;> simp [indexed] at h <;> rfl
+
+/-- only a spine has argument values -/
+theorem args_nil (ω : Oracle) (tb : Nat → IAttr) (e : Expr) (sk : Bool) (σ : Store)
+    (h : ∀ a b, e ≠ .cons a b) : (evalT ω tb e sk σ).args = [] := by
   cases e with
-  | idx1 a i =>
-    exact ⟨(evalT ω tb i false σ).st, (evalT ω tb i false σ).ev, fun h => by simp [indexed] at h, by simp [evalT]⟩
-  | idx2 a i j =>
-    exact ⟨(evalT ω tb j false (evalT ω tb i false σ).st).st,
-      (evalT ω tb i false σ).ev ++ (evalT ω tb j false (evalT ω tb i false σ).st).ev,
-      fun h => by simp [indexed] at h, by simp [evalT]⟩
-  | idxs a n is =>
-    exact ⟨(evalT ω tb is false σ).st, (evalT ω tb is false σ).ev, fun h => by simp [indexed] at h, by simp [evalT]⟩
-  | _ => exact ⟨σ, [], fun _ => ⟨rfl, rfl⟩, by simp [evalT]⟩
+  | cons a b => exact absurd rfl (h a b)
+  | fcall p f args => simp only [evalT]; split <;> rfl
+  | _ => simp [evalT]
 
 /-! ## by-reference arguments are recorded with the call's kind -/
 
@@ -162,66 +192,112 @@ theorem loc_elem (c : Ctx) (ω : Oracle) (e : Expr) (k : Kind) (n : Nat) (σ : S
     simp at h
   | _ => simp [evalT] at h
 
-/-- every by-reference element of an evaluated argument spine is recorded with kind `k` -/
+/-- kind given to the head of a spine -/
+def headKind (ko : Option Kind) (mask : Nat) : Option Kind := if mask % 2 = 1 then some .readwrite else ko
+
+/-- every by-reference element of an evaluated argument spine is recorded with kind `k` or
+READWRITE -/
 theorem args_spine (c : Ctx) (ω : Oracle) (k : Kind) (e : Expr) :
-    ∀ (sk : Bool) (n : Nat) (σ : Store) (v : Int) (l : Loc),
+    ∀ (sk : Bool) (mask n : Nat) (σ : Store) (v : Int) (l : Loc),
       (v, some l) ∈ (evalT ω c.attrs e sk σ).args →
-      ∃ a ∈ (acc c e (.spine (some k) sk) n).1, a.var = l.1 ∧ a.kind = k := by
+      ∃ a ∈ (acc c e (.spine (some k) mask sk) n).1, a.var = l.1 ∧ (a.kind = k ∨ a.kind = .readwrite) := by
   induction e with
   | cons e rest _ ihr =>
-    intro sk n σ v l h
+    intro sk mask n σ v l h
     cases sk with
     | true =>
-      obtain ⟨σ', E, -, heq⟩ := evalT_cons_true ω c.attrs e rest σ
-      rw [heq] at h
+      rw [evalT_cons_true] at h
       simp only [List.mem_cons, Prod.mk.injEq, reduceCtorEq, and_false, false_or] at h
-      obtain ⟨a, ha, h1, h2⟩ := ihr false n σ' v l h
-      exact ⟨a, by simpa [acc] using ha, h1, h2⟩
+      obtain ⟨a, ha, h1, h2⟩ := ihr false (mask / 2)
+        (if c.rule.inqSubs = true then acc c e .subs n else ([], n)).2 _ v l h
+      refine ⟨a, ?_, h1, h2⟩
+      simp only [acc, if_true, List.mem_append]
+      exact Or.inr ha
     | false =>
       rw [evalT_cons_false] at h
       simp only [List.mem_cons, Prod.mk.injEq] at h
       rcases h with ⟨_, h⟩ | h
-      · obtain ⟨a, ha, h1, h2⟩ := loc_elem c ω e k n σ l h.symm
+      · by_cases hm : mask % 2 = 1
+        · obtain ⟨a, ha, h1, h2⟩ := loc_elem c ω e .readwrite n σ l h.symm
+          refine ⟨a, ?_, h1, Or.inr h2⟩
+          simp only [acc, Bool.false_eq_true, if_false, hm, if_true, elemMode, List.mem_append]
+          exact Or.inl ha
+        · obtain ⟨a, ha, h1, h2⟩ := loc_elem c ω e k n σ l h.symm
+          refine ⟨a, ?_, h1, Or.inl h2⟩
+          simp only [acc, Bool.false_eq_true, if_false, hm, elemMode, List.mem_append]
+          exact Or.inl ha
+      · obtain ⟨a, ha, h1, h2⟩ := ihr false (mask / 2)
+          (acc c e (elemMode (if mask % 2 = 1 then some .readwrite else some k)) n).2 _ v l h
         refine ⟨a, ?_, h1, h2⟩
-        simp only [acc, Bool.false_eq_true, if_false, elemMode, List.mem_append]
-        exact Or.inl ha
-      · obtain ⟨a, ha, h1, h2⟩ := ihr false (acc c e (.elem k) n).2 _ v l h
-        refine ⟨a, ?_, h1, h2⟩
-        simp only [acc, Bool.false_eq_true, if_false, elemMode, List.mem_append]
+        simp only [acc, Bool.false_eq_true, if_false, List.mem_append]
         exact Or.inr ha
-  | fcall p f args _ =>
-    intro sk n σ v l h
-    simp only [evalT] at h
-    split at h <;> simp at h
-  | _ => intro sk n σ v l h; simp [evalT] at h
+  | _ =>
+    intro sk mask n σ v l h
+    rw [args_nil _ _ _ _ _ (by intro a b hab; cases hab)] at h
+    cases h
 
 /-- the callee's stores are covered when by-reference arguments are recorded READWRITE -/
 theorem applyUpd_covered (c : Ctx) (ω : Oracle) (u : Nat → Option Int) (e : Expr) (sk : Bool) (k : Kind)
-    (hk : w = true → k = .readwrite) (n p : Nat) (σ τ : Store) :
-    Covers w (acc c e (.spine (some k) sk) n).1
+    (hk : w = true → k = .readwrite) (mask n p : Nat) (σ τ : Store) :
+    Covers w (acc c e (.spine (some k) mask sk) n).1
       (applyUpd u (evalT ω c.attrs e sk σ).args p τ).2 := by
   intro ev hev
   obtain ⟨l, v, rfl, hmem⟩ := applyUpd_events u _ p τ ev hev
   intro hw
-  obtain ⟨a, ha, h1, h2⟩ := args_spine c ω k e sk n σ v l hmem
-  exact ⟨a, ha, h1, by rw [h2, hk hw]; rfl⟩
+  obtain ⟨a, ha, h1, h2⟩ := args_spine c ω k e sk mask n σ v l hmem
+  refine ⟨a, ha, h1, ?_⟩
+  rcases h2 with h2 | h2
+  · rw [h2, hk hw]; rfl
+  · rw [h2]; rfl
 
-/-! ## expressions -/
+/-- … also when the callee can only store into the arguments selected by a mask -/
+theorem applyUpdM_covered_all (c : Ctx) (ω : Oracle) (u : Nat → Option Int) (e : Expr) (k : Kind)
+    (hk : w = true → k = .readwrite) (mask m n p : Nat) (σ τ : Store) :
+    Covers w (acc c e (.spine (some k) mask false) n).1
+      (applyUpdM u (evalT ω c.attrs e false σ).args p m τ).2 := by
+  intro ev hev
+  obtain ⟨l, v, rfl, hmem⟩ := applyUpdM_events u _ p m τ ev hev
+  intro hw
+  obtain ⟨a, ha, h1, h2⟩ := args_spine c ω k e false mask n σ v l hmem
+  refine ⟨a, ha, h1, ?_⟩
+  rcases h2 with h2 | h2
+  · rw [h2, hk hw]; rfl
+  · rw [h2]; rfl
 
-/-- mode of the static visit and `skip` flag of the evaluation describe the same situation,
-and argument kinds are read kinds -/
-def ModeOk : Mode → Bool → Prop
-  | .val, sk => sk = false
-  | .elem k, sk => sk = false ∧ k.isRead = true
-  | .spine ko sk', sk => sk' = sk ∧ ∀ k, ko = some k → k.isRead = true
-
-theorem kindOf_isRead (b : Bool) : (kindOf b).isRead = true := by cases b <;> rfl
-
-theorem elemMode_ok {ko : Option Kind} (h : ∀ k, ko = some k → k.isRead = true) :
-    ModeOk (elemMode ko) false := by
-  cases ko with
-  | none => rfl
-  | some k => exact ⟨rfl, h k rfl⟩
+/-- the arguments selected by the mask are exactly those the static visit marks READWRITE:
+the stores of a callee with declared intents are covered whatever kind the others get -/
+theorem applyUpdM_covered (c : Ctx) (ω : Oracle) (u : Nat → Option Int) (ko : Option Kind) (e : Expr) :
+    ∀ (mask n p : Nat) (σ τ : Store),
+      Covers w (acc c e (.spine ko mask false) n).1
+        (applyUpdM u (evalT ω c.attrs e false σ).args p mask τ).2 := by
+  induction e with
+  | cons e rest _ ihr =>
+    intro mask n p σ τ
+    rw [evalT_cons_false]
+    simp only [acc, Bool.false_eq_true, if_false]
+    cases hl : (evalT ω c.attrs e false σ).loc with
+    | none =>
+      simp only [applyUpdM]
+      exact Covers.right (ihr _ _ _ _ _)
+    | some l =>
+      simp only [applyUpdM]
+      split
+      · rename_i hm
+        have hhead : Covers w (acc c e (elemMode (some Kind.readwrite)) n).1 [Event.wr l] := by
+          obtain ⟨a, ha, h1, h2⟩ := loc_elem c ω e .readwrite n σ l hl
+          simp only [elemMode]
+          exact Covers.wr_single ha h1 (by rw [h2]; rfl)
+        split
+        · exact Covers.right (ihr _ _ _ _ _)
+        · have := Covers.both hhead (ihr (mask / 2) (acc c e (elemMode (some Kind.readwrite)) n).2 (p + 1)
+            (evalT ω c.attrs e false σ).st (τ.set l ‹Int›))
+          simpa only [List.singleton_append] using this
+      · exact Covers.right (ihr _ _ _ _ _)
+  | _ =>
+    intro mask n p σ τ
+    rw [args_nil _ _ _ _ _ (by intro a b hab; cases hab)]
+    simp only [applyUpdM]
+    exact Covers.nil _
 
 /-! ## inquiry intrinsics: subscripts of the inquired argument -/
 
@@ -230,9 +306,9 @@ def firstPlain : Expr → Bool
   | .cons e _ => !indexed e
   | _ => true
 
-/-- no inquiry intrinsic in `e` is applied to a subscripted object (`size(w(idx(j):))`): the
-real `IntrinsicCall.reference_accesses` skips the whole first argument of an inquiry, also
-the subscripts that have to be evaluated -/
+/-- no inquiry intrinsic in `e` is applied to a subscripted object (`size(w(idx(j):))`): without
+fixes/C11-inquiry-subscripts.patch `IntrinsicCall.reference_accesses` skips the whole first
+argument of an inquiry, also the subscripts that have to be evaluated -/
 def okE (tb : Nat → IAttr) : Expr → Bool
   | .lit _ => true
   | .var _ => true
@@ -246,112 +322,170 @@ def okE (tb : Nat → IAttr) : Expr → Bool
   | .fcall _ _ args => okE tb args
   | .cons e rest => okE tb e && okE tb rest
 
-/-- hypothesis of the coverage lemma for an expression evaluated with `skip` flag `sk` -/
-def OkAt (tb : Nat → IAttr) (e : Expr) (sk : Bool) : Prop :=
-  okE tb e = true ∧ (sk = true → firstPlain e = true)
+/-- hypothesis of the coverage lemma for an expression evaluated with `skip` flag `sk`: either
+the rule visits the subscripts of inquired arguments, or there are none -/
+def OkAt (c : Ctx) (e : Expr) (sk : Bool) : Prop :=
+  c.rule.inqSubs = true ∨ (okE c.attrs e = true ∧ (sk = true → firstPlain e = true))
 
-theorem OkAt.f {tb : Nat → IAttr} {e : Expr} (h : okE tb e = true) : OkAt tb e false :=
-  ⟨h, fun h => by cases h⟩
+theorem OkAt.sub {c : Ctx} {e e' : Expr} {sk : Bool} (h : OkAt c e sk)
+    (hs : okE c.attrs e = true → okE c.attrs e' = true) : OkAt c e' false := by
+  rcases h with h | h
+  · exact Or.inl h
+  · exact Or.inr ⟨hs h.1, fun h => by cases h⟩
+
+/-! ## expressions -/
+
+/-- mode of the static visit and `skip` flag of the evaluation describe the same situation,
+and argument kinds are read kinds -/
+def ModeOk : Mode → Bool → Prop
+  | .val, sk => sk = false
+  | .elem k, sk => sk = false ∧ k.isRead = true
+  | .subs, _ => True
+  | .spine ko _ sk', sk => sk' = sk ∧ ∀ k, ko = some k → k.isRead = true
+
+/-- the events the static visit in mode `m` has to cover -/
+def evOf (ω : Oracle) (tb : Nat → IAttr) (e : Expr) : Mode → Bool → Store → List Event
+  | .subs, _, σ => (subsT ω tb e σ).2
+  | _, sk, σ => (evalT ω tb e sk σ).ev
+
+theorem kindOf_isRead (b : Bool) : (kindOf b).isRead = true := by cases b <;> rfl
+
+theorem elemMode_ok {ko : Option Kind} (h : ∀ k, ko = some k → k.isRead = true) :
+    ModeOk (elemMode ko) false := by
+  cases ko with
+  | none => rfl
+  | some k => exact ⟨rfl, h k rfl⟩
+
+theorem headKind_ok {ko : Option Kind} (mask : Nat) (h : ∀ k, ko = some k → k.isRead = true) :
+    ∀ k, (if mask % 2 = 1 then some Kind.readwrite else ko) = some k → k.isRead = true := by
+  intro k hk
+  split at hk
+  · cases hk; rfl
+  · exact h k hk
 
 /-- **expression coverage**: the accesses recorded for an expression cover every read and
 every write event of its evaluation, provided impure user functions mark their
 by-reference arguments READWRITE -/
 theorem acc_covers (c : Ctx) (ω : Oracle) (hfn : w = true → c.rule.callRW false false = true) (e : Expr) :
-    ∀ (m : Mode) (sk : Bool) (n : Nat) (σ : Store), ModeOk m sk → OkAt c.attrs e sk →
-      Covers w (acc c e m n).1 (evalT ω c.attrs e sk σ).ev := by
+    ∀ (m : Mode) (sk : Bool) (n : Nat) (σ : Store), ModeOk m sk → OkAt c e sk →
+      Covers w (acc c e m n).1 (evOf ω c.attrs e m sk σ) := by
   induction e with
-  | lit v => intro m sk n σ _ _; simp only [evalT]; exact Covers.nil _
+  | lit v => intro m sk n σ _ _; cases m <;> exact Covers.nil _
   | var x =>
     intro m sk n σ hm _
-    simp only [evalT]
     cases m with
     | val => exact Covers.rd_single (a := ⟨x, .read, n, 0⟩) (by simp [acc]) rfl rfl
     | elem k => exact Covers.rd_single (a := ⟨x, k, n, 0⟩) (by simp [acc]) rfl hm.2
-    | spine ko s => exact Covers.rd_single (a := ⟨x, .read, n, 0⟩) (by simp [acc]) rfl rfl
+    | subs => exact Covers.nil _
+    | spine ko mask s => exact Covers.rd_single (a := ⟨x, .read, n, 0⟩) (by simp [acc]) rfl rfl
   | idx1 a i ih =>
     intro m sk n σ hm hq
-    have hi := ih .val false n σ rfl (OkAt.f (by simpa only [okE] using hq.1))
-    simp only [evalT]
+    have hi := ih .val false n σ rfl (hq.sub (fun h => by simpa only [okE] using h))
+    simp only [evOf] at hi
     cases m with
     | val =>
-      simp only [acc]
+      simp only [acc, evOf, evalT]
       exact hi.both (Covers.rd_single (a := ⟨a, .read, (acc c i .val n).2, 1⟩) (by simp) rfl rfl)
     | elem k =>
-      simp only [acc]
+      simp only [acc, evOf, evalT]
       exact (Covers.cons hi).append (Covers.rd_single (a := ⟨a, k, n, 0⟩) (by simp) rfl hm.2)
-    | spine ko s =>
-      simp only [acc]
+    | subs =>
+      simp only [acc, evOf, subsT]
+      exact hi
+    | spine ko mask s =>
+      simp only [acc, evOf, evalT]
       exact hi.both (Covers.rd_single (a := ⟨a, .read, (acc c i .val n).2, 1⟩) (by simp) rfl rfl)
   | idx2 a i j ihi ihj =>
     intro m sk n σ hm hq
-    have hq' : okE c.attrs i = true ∧ okE c.attrs j = true := by
-      have := hq.1; simpa only [okE, Bool.and_eq_true] using this
-    have hi := ihi .val false n σ rfl (OkAt.f hq'.1)
-    have hj := ihj .val false (acc c i .val n).2 (evalT ω c.attrs i false σ).st rfl (OkAt.f hq'.2)
-    simp only [evalT]
+    have hi := ihi .val false n σ rfl
+      (hq.sub (fun h => by simp only [okE, Bool.and_eq_true] at h; exact h.1))
+    have hj := ihj .val false (acc c i .val n).2 (evalT ω c.attrs i false σ).st rfl
+      (hq.sub (fun h => by simp only [okE, Bool.and_eq_true] at h; exact h.2))
+    simp only [evOf] at hi hj
     cases m with
     | val =>
-      simp only [acc]
+      simp only [acc, evOf, evalT]
       exact (hi.both hj).both (Covers.rd_single (a := ⟨a, .read, (acc c j .val (acc c i .val n).2).2, 2⟩) (by simp) rfl rfl)
     | elem k =>
-      simp only [acc]
+      simp only [acc, evOf, evalT]
       exact (Covers.cons (hi.both hj)).append
         (Covers.rd_single (a := ⟨a, k, n, 0⟩) (by simp) rfl hm.2)
-    | spine ko s =>
-      simp only [acc]
+    | subs =>
+      simp only [acc, evOf, subsT]
+      exact hi.both hj
+    | spine ko mask s =>
+      simp only [acc, evOf, evalT]
       exact (hi.both hj).both (Covers.rd_single (a := ⟨a, .read, (acc c j .val (acc c i .val n).2).2, 2⟩) (by simp) rfl rfl)
   | idxs a cnt is ih =>
     intro m sk n σ hm hq
-    have hi := ih .val false n σ rfl (OkAt.f (by simpa only [okE] using hq.1))
-    simp only [evalT]
+    have hi := ih .val false n σ rfl (hq.sub (fun h => by simpa only [okE] using h))
+    simp only [evOf] at hi
     cases m with
     | val =>
-      simp only [acc]
+      simp only [acc, evOf, evalT]
       exact hi.both (Covers.rd_single (a := ⟨a, .read, (acc c is .val n).2, cnt⟩) (by simp) rfl rfl)
     | elem k =>
-      simp only [acc]
+      simp only [acc, evOf, evalT]
       exact (Covers.cons hi).append (Covers.rd_single (a := ⟨a, k, n, 0⟩) (by simp) rfl hm.2)
-    | spine ko s =>
-      simp only [acc]
+    | subs =>
+      simp only [acc, evOf, subsT]
+      exact hi
+    | spine ko mask s =>
+      simp only [acc, evOf, evalT]
       exact hi.both (Covers.rd_single (a := ⟨a, .read, (acc c is .val n).2, cnt⟩) (by simp) rfl rfl)
   | un op e ih =>
     intro m sk n σ _ hq
-    have h := ih .val false n σ rfl (OkAt.f (by simpa only [okE] using hq.1))
-    simp only [evalT]
-    cases m <;> simpa only [acc] using h
+    have h := ih .val false n σ rfl (hq.sub (fun h => by simpa only [okE] using h))
+    simp only [evOf] at h
+    cases m with
+    | subs => exact Covers.nil _
+    | val => simpa only [acc, evOf, evalT] using h
+    | elem k => simpa only [acc, evOf, evalT] using h
+    | spine ko mask s => simpa only [acc, evOf, evalT] using h
   | bin op a b iha ihb =>
     intro m sk n σ _ hq
-    have hq' : okE c.attrs a = true ∧ okE c.attrs b = true := by
-      have := hq.1; simpa only [okE, Bool.and_eq_true] using this
-    have ha := iha .val false n σ rfl (OkAt.f hq'.1)
-    have hb := ihb .val false (acc c a .val n).2 (evalT ω c.attrs a false σ).st rfl (OkAt.f hq'.2)
-    simp only [evalT]
-    cases m <;> (simp only [acc]; exact ha.both hb)
+    have ha := iha .val false n σ rfl
+      (hq.sub (fun h => by simp only [okE, Bool.and_eq_true] at h; exact h.1))
+    have hb := ihb .val false (acc c a .val n).2 (evalT ω c.attrs a false σ).st rfl
+      (hq.sub (fun h => by simp only [okE, Bool.and_eq_true] at h; exact h.2))
+    simp only [evOf] at ha hb
+    cases m with
+    | subs => exact Covers.nil _
+    | val => simp only [acc, evOf, evalT]; exact ha.both hb
+    | elem k => simp only [acc, evOf, evalT]; exact ha.both hb
+    | spine ko mask s => simp only [acc, evOf, evalT]; exact ha.both hb
   | intr k args ih =>
     intro m sk n σ _ hq
-    have hq' : ((c.attrs k).inquiry = true → firstPlain args = true) ∧ okE c.attrs args = true := by
-      have := hq.1
-      simp only [okE, Bool.and_eq_true, Bool.or_eq_true, Bool.not_eq_true'] at this
-      refine ⟨fun hi => ?_, this.2⟩
-      rcases this.1 with h | h
-      · rw [hi] at h; cases h
-      · exact h
+    have hq' : OkAt c args (c.attrs k).inquiry := by
+      rcases hq with hq | hq
+      · exact Or.inl hq
+      · have := hq.1
+        simp only [okE, Bool.and_eq_true, Bool.or_eq_true, Bool.not_eq_true'] at this
+        refine Or.inr ⟨this.2, fun hi => ?_⟩
+        rcases this.1 with h | h
+        · rw [hi] at h; cases h
+        · exact h
     have hok : ModeOk (.spine (if c.rule.intrRW (c.attrs k).pure (c.attrs k).inquiry false = true
-        then some Kind.readwrite else none) (c.attrs k).inquiry) (c.attrs k).inquiry := by
+        then some Kind.readwrite else none) 0 (c.attrs k).inquiry) (c.attrs k).inquiry := by
       refine ⟨rfl, ?_⟩
       intro k' hk'
       split at hk'
       · cases hk'; rfl
       · cases hk'
-    have h := ih _ (c.attrs k).inquiry n σ hok ⟨hq'.2, hq'.1⟩
-    simp only [evalT]
-    cases m <;> simpa only [acc] using h
+    have h := ih _ (c.attrs k).inquiry n σ hok hq'
+    simp only [evOf] at h
+    cases m with
+    | subs => exact Covers.nil _
+    | val => simpa only [acc, evOf, evalT] using h
+    | elem k => simpa only [acc, evOf, evalT] using h
+    | spine ko mask s => simpa only [acc, evOf, evalT] using h
   | fcall p f args ih =>
     intro m sk n σ _ hq
-    have hok : ModeOk (.spine (some (kindOf (c.rule.callRW p false))) false) false :=
+    have hok : ModeOk (.spine (some (kindOf (c.rule.callRW p false))) 0 false) false :=
       ⟨rfl, fun k hk => by cases hk; exact kindOf_isRead _⟩
-    have h := ih _ false n σ hok (OkAt.f (by simpa only [okE] using hq.1))
-    have key : Covers w (acc c args (.spine (some (kindOf (c.rule.callRW p false))) false) n).1
+    have h := ih _ false n σ hok (hq.sub (fun h => by simpa only [okE] using h))
+    simp only [evOf] at h
+    have key : Covers w (acc c args (.spine (some (kindOf (c.rule.callRW p false))) 0 false) n).1
         (evalT ω c.attrs (.fcall p f args) sk σ).ev := by
       simp only [evalT]
       cases p with
@@ -359,55 +493,84 @@ theorem acc_covers (c : Ctx) (ω : Oracle) (hfn : w = true → c.rule.callRW fal
       | false =>
         simp only [Bool.false_eq_true, if_false]
         refine h.append ?_
-        exact applyUpd_covered c ω _ args false _ (fun hw => by rw [hfn hw]; rfl) n 0 σ _
-    cases m <;> simpa only [acc] using key
+        exact applyUpd_covered c ω _ args false _ (fun hw => by rw [hfn hw]; rfl) 0 n 0 σ _
+    cases m with
+    | subs => exact Covers.nil _
+    | val => simpa only [acc, evOf] using key
+    | elem k => simpa only [acc, evOf] using key
+    | spine ko mask s => simpa only [acc, evOf] using key
   | nil =>
     intro m sk n σ _ _
-    simp only [evalT]
-    exact Covers.nil _
+    cases m <;> exact Covers.nil _
   | cons e rest ihe ihr =>
     intro m sk n σ hm hq
-    have hq' : okE c.attrs e = true ∧ okE c.attrs rest = true := by
-      have := hq.1; simpa only [okE, Bool.and_eq_true] using this
+    have hqe : OkAt c e false := hq.sub (fun h => by simp only [okE, Bool.and_eq_true] at h; exact h.1)
+    have hqr : OkAt c rest false := hq.sub (fun h => by simp only [okE, Bool.and_eq_true] at h; exact h.2)
     cases m with
+    | subs => exact Covers.nil _
     | val =>
       cases hm
-      have h1 := ihe .val false n σ rfl (OkAt.f hq'.1)
-      have h2 := ihr .val false (acc c e .val n).2 (evalT ω c.attrs e false σ).st rfl (OkAt.f hq'.2)
+      have h1 := ihe .val false n σ rfl hqe
+      have h2 := ihr .val false (acc c e .val n).2 (evalT ω c.attrs e false σ).st rfl hqr
+      simp only [evOf] at h1 h2 ⊢
       rw [evalT_cons_false]
       simp only [acc]
       exact h1.both h2
     | elem k =>
       obtain ⟨rfl, _⟩ := hm
-      have h1 := ihe .val false n σ rfl (OkAt.f hq'.1)
-      have h2 := ihr .val false (acc c e .val n).2 (evalT ω c.attrs e false σ).st rfl (OkAt.f hq'.2)
+      have h1 := ihe .val false n σ rfl hqe
+      have h2 := ihr .val false (acc c e .val n).2 (evalT ω c.attrs e false σ).st rfl hqr
+      simp only [evOf] at h1 h2 ⊢
       rw [evalT_cons_false]
       simp only [acc]
       exact h1.both h2
-    | spine ko s =>
+    | spine ko mask s =>
       obtain ⟨rfl, hk⟩ := hm
       cases s with
       | true =>
-        have hfp : indexed e = false := by
-          have := hq.2 rfl
-          simpa only [firstPlain, Bool.not_eq_true'] using this
-        obtain ⟨σ', E, hpl, heq⟩ := evalT_cons_true ω c.attrs e rest σ
-        obtain ⟨rfl, rfl⟩ := hpl hfp
-        have h2 := ihr (.spine ko false) false n σ' ⟨rfl, hk⟩ (OkAt.f hq'.2)
-        rw [heq]
-        simpa only [acc, if_true, List.nil_append] using h2
+        simp only [evOf]
+        rw [evalT_cons_true]
+        simp only [acc, if_true]
+        by_cases hs : c.rule.inqSubs = true
+        · have h1 := ihe .subs false n σ trivial hqe
+          have h2 := ihr (.spine ko (mask / 2) false) false (acc c e .subs n).2
+            (subsT ω c.attrs e σ).1 ⟨rfl, hk⟩ hqr
+          simp only [evOf] at h1 h2
+          simp only [hs, if_true]
+          exact h1.both h2
+        · have hfp : indexed e = false := by
+            rcases hq with hq | hq
+            · exact absurd hq hs
+            · have := hq.2 rfl
+              simpa only [firstPlain, Bool.not_eq_true'] using this
+          rw [subsT_plain _ _ _ _ hfp]
+          have h2 := ihr (.spine ko (mask / 2) false) false n σ ⟨rfl, hk⟩ hqr
+          simp only [evOf] at h2
+          simp only [hs, Bool.false_eq_true, if_false, List.nil_append]
+          exact h2
       | false =>
-        have h1 := ihe (elemMode ko) false n σ (elemMode_ok hk) (OkAt.f hq'.1)
-        have h2 := ihr (.spine ko false) false (acc c e (elemMode ko) n).2
-          (evalT ω c.attrs e false σ).st ⟨rfl, hk⟩ (OkAt.f hq'.2)
+        have h1 := ihe (elemMode (if mask % 2 = 1 then some Kind.readwrite else ko)) false n σ
+          (elemMode_ok (headKind_ok mask hk)) hqe
+        have h2 := ihr (.spine ko (mask / 2) false) false
+          (acc c e (elemMode (if mask % 2 = 1 then some Kind.readwrite else ko)) n).2
+          (evalT ω c.attrs e false σ).st ⟨rfl, hk⟩ hqr
+        have h1' : Covers w (acc c e (elemMode (if mask % 2 = 1 then some Kind.readwrite else ko)) n).1
+            (evalT ω c.attrs e false σ).ev := by
+          cases hem : elemMode (if mask % 2 = 1 then some Kind.readwrite else ko) with
+          | subs => cases ko <;> (split at hem <;> simp [elemMode] at hem)
+          | val => rw [hem] at h1; simpa only [evOf] using h1
+          | elem k => rw [hem] at h1; simpa only [evOf] using h1
+          | spine a b d => cases ko <;> (split at hem <;> simp [elemMode] at hem)
+        simp only [evOf] at h2 ⊢
         rw [evalT_cons_false]
         simp only [acc, Bool.false_eq_true, if_false]
-        exact h1.both h2
+        exact h1'.both h2
 
 /-! ## statements -/
 
-/-- the statement contains no call whose by-reference arguments the rule would record as
-READ although the callee (a subroutine) may store into them -/
+/-- every call statement in `s` records as written what its callee may store into: the rule
+answers READWRITE for it, or (pure subroutine defined in the same Container, rule uses the
+declared intents) exactly the non-INTENT(IN) arguments are READWRITE -/
 def okS (c : Ctx) : Stmt → Bool
   | .skip => true
   | .seq a b => okS c a && okS c b
@@ -415,19 +578,38 @@ def okS (c : Ctx) : Stmt → Bool
   | .ifThen _ t => okS c t
   | .ite _ t f => okS c t && okS c f
   | .loop _ _ _ _ b => okS c b
-  | .call p _ _ => c.rule.callRW p true
+  | .while _ b => okS c b
+  | .ret => true
+  | .opaque _ _ _ _ => true
+  | .call p mods _ _ => c.rule.callRW p true || (c.rule.useIntents && p && mods.isSome)
   | .icall k _ _ => c.rule.intrRW (c.attrs k).pure (c.attrs k).inquiry true
 
-/-- no inquiry intrinsic anywhere in the statement is applied to a subscripted object -/
-def okES (tb : Nat → IAttr) : Stmt → Bool
+/-- `e` contains no inquiry of a subscripted object, or the rule visits such subscripts -/
+def okX (c : Ctx) (e : Expr) : Bool := c.rule.inqSubs || okE c.attrs e
+
+/-- side condition for reads: every CodeBlock's may-read / may-define variables are among the
+names of its text when the rule records those (else: it mentions no variable at all, since
+nothing is recorded), and no inquiry of a subscripted object unless the rule visits the
+subscripts -/
+def okES (c : Ctx) : Stmt → Bool
   | .skip => true
-  | .seq a b => okES tb a && okES tb b
-  | .asg l r => okE tb l && okE tb r
-  | .ifThen c t => okE tb c && okES tb t
-  | .ite c t f => okE tb c && okES tb t && okES tb f
-  | .loop _ lo hi st b => okE tb lo && okE tb hi && okE tb st && okES tb b
-  | .call _ _ args => okE tb args
-  | .icall k _ args => (!(tb k).inquiry || firstPlain args) && okE tb args
+  | .seq a b => okES c a && okES c b
+  | .asg l r => okX c l && okX c r
+  | .ifThen cnd t => okX c cnd && okES c t
+  | .ite cnd t f => okX c cnd && okES c t && okES c f
+  | .loop _ lo hi st b => okX c lo && okX c hi && okX c st && okES c b
+  | .while cnd b => okX c cnd && okES c b
+  | .ret => true
+  | .opaque _ names rd wr =>
+      if c.rule.cbRW then (rd ++ wr).all (fun x => names.contains x) else rd.isEmpty && wr.isEmpty
+  | .call _ _ _ args => okX c args
+  | .icall k _ args => c.rule.inqSubs || ((!(c.attrs k).inquiry || firstPlain args) && okE c.attrs args)
+
+theorem okX_at {c : Ctx} {e : Expr} (h : okX c e = true) : OkAt c e false := by
+  simp only [okX, Bool.or_eq_true] at h
+  rcases h with h | h
+  · exact Or.inl h
+  · exact Or.inr ⟨h, fun h => by cases h⟩
 
 /-- index accesses of a reference LHS (visited at location 0), its final location and the
 number of indices recorded for the target -/
@@ -496,22 +678,24 @@ theorem changeReadToWrite_ref_iff (I : List Access) (x l k : Nat) :
 /-- the subscripts of the target are covered by the index accesses; the assigned location
 belongs to the target variable -/
 theorem lhsT_covers (c : Ctx) (ω : Oracle) (hfn : w = true → c.rule.callRW false false = true) (lhs : Expr)
-    (hq : okE c.attrs lhs = true) (σ : Store) :
+    (hq : OkAt c lhs false) (σ : Store) :
     Covers w (lhsIdx c lhs).1 (lhsT ω c.attrs lhs σ).2.1 ∧
       ∀ l, (lhsT ω c.attrs lhs σ).2.2 = some l → l.1 = lhs.refVar := by
   cases lhs with
   | var x => exact ⟨Covers.nil _, fun l h => by simp [lhsT] at h; subst h; rfl⟩
   | idx1 a i =>
-    simp only [okE] at hq
-    exact ⟨acc_covers c ω hfn i .val false 0 σ rfl (OkAt.f hq), fun l h => by simp [lhsT] at h; subst h; rfl⟩
+    have := acc_covers c ω hfn i .val false 0 σ rfl (hq.sub (fun h => by simpa only [okE] using h))
+    exact ⟨this, fun l h => by simp [lhsT] at h; subst h; rfl⟩
   | idx2 a i j =>
-    simp only [okE, Bool.and_eq_true] at hq
     refine ⟨?_, fun l h => by simp [lhsT] at h; subst h; rfl⟩
-    exact (acc_covers c ω hfn i .val false 0 σ rfl (OkAt.f hq.1)).both
-      (acc_covers c ω hfn j .val false _ _ rfl (OkAt.f hq.2))
+    have h1 := acc_covers c ω hfn i .val false 0 σ rfl
+      (hq.sub (fun h => by simp only [okE, Bool.and_eq_true] at h; exact h.1))
+    have h2 := acc_covers c ω hfn j .val false (acc c i .val 0).2 (evalT ω c.attrs i false σ).st rfl
+      (hq.sub (fun h => by simp only [okE, Bool.and_eq_true] at h; exact h.2))
+    exact h1.both h2
   | idxs a n is =>
-    simp only [okE] at hq
-    exact ⟨acc_covers c ω hfn is .val false 0 σ rfl (OkAt.f hq), fun l h => by simp [lhsT] at h; subst h; rfl⟩
+    have := acc_covers c ω hfn is .val false 0 σ rfl (hq.sub (fun h => by simpa only [okE] using h))
+    exact ⟨this, fun l h => by simp [lhsT] at h; subst h; rfl⟩
   | _ => exact ⟨Covers.nil _, fun l h => by simp [lhsT] at h⟩
 
 theorem bumpIf_fst (b : Bool) (r : List Access × Nat) : (bumpIf b r).1 = r.1 := by
@@ -529,15 +713,55 @@ theorem runItersT_covers {A : List Access} (f : Store → Store × List Event) (
     simp only [runItersT]
     exact ih _ _ ((hq.append hv).append (hf _))
 
+theorem whileT_covers {A : List Access} (cond : Store → R) (body : Store → Store × List Event)
+    (hc : ∀ σ, Covers w A (cond σ).ev) (hb : ∀ σ, Covers w A (body σ).2) :
+    ∀ (n : Nat) (q : Store × List Event), Covers w A q.2 → Covers w A (whileT cond body n q).2 := by
+  intro n
+  induction n with
+  | zero => intro q hq; exact hq.append (hc _)
+  | succ n ih =>
+    intro q hq
+    simp only [whileT]
+    split
+    · exact ih _ ((hq.append (hc _)).append (hb _))
+    · exact hq.append (hc _)
+
 /-- **statement coverage**: whenever the real code does not raise, the access list of a
 statement covers every read and write event of every execution -/
 theorem accS_covers (c : Ctx) (ω : Oracle) (hfn : w = true → c.rule.callRW false false = true) (s : Stmt) :
     ∀ (bump : Bool) (n : Nat) (σ : Store) (r : List Access × Nat), (w = true → okS c s = true) →
-      okES c.attrs s = true → accS c s bump n = some r → Covers w r.1 (execT ω c.attrs s σ).2 := by
+      okES c s = true → accS c s bump n = some r → Covers w r.1 (execT ω c.attrs s σ).2 := by
   induction s with
   | skip =>
     intro bump n σ r _ _ h
     simp only [execT]; exact Covers.nil _
+  | ret =>
+    intro bump n σ r _ _ h
+    simp only [execT]; exact Covers.nil _
+  | «opaque» f names rd wr =>
+    intro bump n σ r _ hq h
+    simp only [accS, Option.some.injEq] at h
+    cases h
+    rw [bumpIf_fst]
+    simp only [okES] at hq
+    by_cases hcb : c.rule.cbRW = true
+    · simp only [hcb, if_true, List.all_eq_true, List.mem_append, List.contains_iff_mem] at hq ⊢
+      simp only [execT]
+      refine Covers.append ?_ ?_
+      · intro ev hev
+        obtain ⟨x, hx, rfl⟩ := List.mem_map.mp hev
+        exact ⟨⟨x, .readwrite, n, 0⟩, List.mem_map.mpr ⟨x, hq x (Or.inl hx), rfl⟩, rfl, rfl⟩
+      · intro ev hev
+        obtain ⟨l, v, rfl, hmem⟩ := applyUpd_events _ _ _ _ ev hev
+        obtain ⟨x, hx, hxl⟩ := List.mem_map.mp hmem
+        simp only [Prod.mk.injEq, Option.some.injEq] at hxl
+        intro _
+        refine ⟨⟨x, .readwrite, n, 0⟩, List.mem_map.mpr ⟨x, hq x (Or.inr hx), rfl⟩, ?_, rfl⟩
+        rw [← hxl.2]
+    · simp only [hcb, Bool.false_eq_true, if_false, Bool.and_eq_true, List.isEmpty_iff] at hq ⊢
+      obtain ⟨rfl, rfl⟩ := hq
+      simp only [execT, List.map_nil, applyUpd, List.append_nil]
+      exact Covers.nil _
   | seq a b iha ihb =>
     intro bump n σ r hok hq h
     simp only [okES, Bool.and_eq_true] at hq
@@ -568,8 +792,9 @@ theorem accS_covers (c : Ctx) (ω : Oracle) (hfn : w = true → c.rule.callRW fa
         cases h
         obtain ⟨rfl, -⟩ := changeReadToWrite_ref _ _ _ _ _ hl
         rw [bumpIf_fst]
-        obtain ⟨hidx, hloc⟩ := lhsT_covers c ω hfn lhs hq.1 (evalT ω c.attrs rhs false σ).st
-        have hrhs := acc_covers c ω hfn rhs .val false n σ rfl (OkAt.f hq.2)
+        obtain ⟨hidx, hloc⟩ := lhsT_covers c ω hfn lhs (okX_at hq.1) (evalT ω c.attrs rhs false σ).st
+        have hrhs := acc_covers c ω hfn rhs .val false n σ rfl (okX_at hq.2)
+        simp only [evOf] at hrhs
         simp only [execT]
         split
         · rename_i l hl'
@@ -590,7 +815,8 @@ theorem accS_covers (c : Ctx) (ω : Oracle) (hfn : w = true → c.rule.callRW fa
     · rename_i r1 h1
       cases h
       rw [bumpIf_fst]
-      have hc := acc_covers c ω hfn cnd .val false n σ rfl (OkAt.f hq.1)
+      have hc := acc_covers c ω hfn cnd .val false n σ rfl (okX_at hq.1)
+      simp only [evOf] at hc
       simp only [execT]
       split
       · exact hc.both (iht false _ _ r1 hok hq.2 h1)
@@ -611,7 +837,8 @@ theorem accS_covers (c : Ctx) (ω : Oracle) (hfn : w = true → c.rule.callRW fa
       · rename_i r2 h2
         cases h
         rw [bumpIf_fst]
-        have hc := acc_covers c ω hfn cnd .val false n σ rfl (OkAt.f hq.1.1)
+        have hc := acc_covers c ω hfn cnd .val false n σ rfl (okX_at hq.1.1)
+        simp only [evOf] at hc
         simp only [execT]
         split
         · exact (hc.both (iht false _ _ r1 hokt hq.1.2 h1)).left
@@ -629,34 +856,75 @@ theorem accS_covers (c : Ctx) (ω : Oracle) (hfn : w = true → c.rule.callRW fa
       cases h
       rw [bumpIf_fst]
       simp only [execT]
-      have h1 := acc_covers c ω hfn lo .val false n σ rfl (OkAt.f hq.1.1.1)
-      have h2 := acc_covers c ω hfn hi .val false (acc c lo .val n).2 (evalT ω c.attrs lo false σ).st rfl (OkAt.f hq.1.1.2)
+      have h1 := acc_covers c ω hfn lo .val false n σ rfl (okX_at hq.1.1.1)
+      have h2 := acc_covers c ω hfn hi .val false (acc c lo .val n).2 (evalT ω c.attrs lo false σ).st rfl
+        (okX_at hq.1.1.2)
       have h3 := acc_covers c ω hfn st .val false (acc c hi .val (acc c lo .val n).2).2
-        (evalT ω c.attrs hi false (evalT ω c.attrs lo false σ).st).st rfl (OkAt.f hq.1.2)
+        (evalT ω c.attrs hi false (evalT ω c.attrs lo false σ).st).st rfl (okX_at hq.1.2)
+      simp only [evOf] at h1 h2 h3
       apply runItersT_covers
       · intro τ
         exact Covers.cons (Covers.cons (Covers.right (ih true _ τ rb hok hq.2 hb)))
       · exact Covers.wr_single (a := ⟨v, .write, n, 0⟩) (by simp) rfl rfl
       · exact Covers.cons (Covers.cons (Covers.left ((h1.both h2).both h3)))
-  | call p f args =>
+  | «while» cnd b ih =>
+    intro bump n σ r hok hq h
+    simp only [okES, Bool.and_eq_true] at hq
+    simp only [okS] at hok
+    simp only [accS] at h
+    split at h
+    · cases h
+    · rename_i r1 h1
+      cases h
+      rw [bumpIf_fst]
+      simp only [execT]
+      apply whileT_covers
+      · intro τ
+        have := acc_covers c ω hfn cnd .val false n τ rfl (okX_at hq.1)
+        simp only [evOf] at this
+        exact this.left
+      · intro τ
+        exact Covers.right (ih false _ τ r1 hok hq.2 h1)
+      · exact Covers.nil _
+  | call p mods f args =>
     intro bump n σ r hok hq h
     simp only [okES] at hq
-    simp only [okS] at hok
+    simp only [okS, Bool.or_eq_true, Bool.and_eq_true] at hok
     simp only [accS, Option.some.injEq] at h
     cases h
     rw [bumpIf_fst]
     simp only [execT]
-    refine (acc_covers c ω hfn args (.spine (some (kindOf (c.rule.callRW p true))) false) false n σ
-      ⟨rfl, fun k hk => by cases hk; exact kindOf_isRead _⟩ (OkAt.f hq)).append ?_
-    exact applyUpd_covered c ω _ args false _ (fun hw => by rw [hok hw]; rfl) n 0 σ _
+    have hargs := acc_covers c ω hfn args
+      (.spine (some (kindOf (c.rule.callRW p true))) (if (c.rule.useIntents && p) = true then mods.getD 0 else 0) false)
+      false n σ ⟨rfl, fun k hk => by cases hk; exact kindOf_isRead _⟩ (okX_at hq)
+    simp only [evOf] at hargs
+    refine hargs.append ?_
+    cases mods with
+    | none =>
+      simp only
+      refine applyUpd_covered c ω _ args false _ (fun hw => ?_) _ n 0 σ _
+      rcases hok hw with h | h
+      · rw [h]; rfl
+      · simp at h
+    | some m =>
+      simp only
+      by_cases hu : (c.rule.useIntents && p) = true
+      · simp only [hu, if_true, Option.getD_some]
+        exact applyUpdM_covered c ω _ _ args m n 0 σ _
+      · refine applyUpdM_covered_all c ω _ args _ (fun hw => ?_) _ m n 0 σ _
+        rcases hok hw with h | h
+        · rw [h]; rfl
+        · exact absurd (by simp only [Bool.and_eq_true]; exact h.1) hu
   | icall k f args =>
     intro bump n σ r hok hq h
-    have hq' : OkAt c.attrs args (c.attrs k).inquiry := by
+    have hq' : OkAt c args (c.attrs k).inquiry := by
       simp only [okES, Bool.and_eq_true, Bool.or_eq_true, Bool.not_eq_true'] at hq
-      refine ⟨hq.2, fun hi => ?_⟩
-      rcases hq.1 with h' | h'
-      · rw [hi] at h'; cases h'
-      · exact h'
+      rcases hq with hq | hq
+      · exact Or.inl hq
+      · refine Or.inr ⟨hq.2, fun hi => ?_⟩
+        rcases hq.1 with h' | h'
+        · rw [hi] at h'; cases h'
+        · exact h'
     simp only [okS] at hok
     simp only [accS, Option.some.injEq] at h
     cases h
@@ -664,17 +932,21 @@ theorem accS_covers (c : Ctx) (ω : Oracle) (hfn : w = true → c.rule.callRW fa
     simp only [execT]
     by_cases hrw : c.rule.intrRW (c.attrs k).pure (c.attrs k).inquiry true = true
     · simp only [hrw, if_true]
-      refine (acc_covers c ω hfn args (.spine (some .readwrite) (c.attrs k).inquiry) (c.attrs k).inquiry n σ
-        ⟨rfl, fun k hk => by cases hk; rfl⟩ hq').append ?_
-      exact applyUpd_covered c ω _ args _ _ (fun _ => rfl) n 0 σ _
+      have := acc_covers c ω hfn args (.spine (some .readwrite) 0 (c.attrs k).inquiry) (c.attrs k).inquiry n σ
+        ⟨rfl, fun k hk => by cases hk; rfl⟩ hq'
+      simp only [evOf] at this
+      refine this.append ?_
+      exact applyUpd_covered c ω _ args _ _ (fun _ => rfl) 0 n 0 σ _
     · have hwf : w = false := by
         cases w with
         | false => rfl
         | true => exact absurd (hok rfl) hrw
       subst hwf
       simp only [hrw, Bool.false_eq_true, if_false]
-      refine (acc_covers c ω hfn args (.spine none (c.attrs k).inquiry) (c.attrs k).inquiry n σ
-        ⟨rfl, fun k hk => by cases hk⟩ hq').append ?_
+      have := acc_covers c ω hfn args (.spine none 0 (c.attrs k).inquiry) (c.attrs k).inquiry n σ
+        ⟨rfl, fun k hk => by cases hk⟩ hq'
+      simp only [evOf] at this
+      refine this.append ?_
       intro ev hev
       obtain ⟨l, v, rfl, -⟩ := applyUpd_events _ _ _ _ ev hev
       intro hw; cases hw
@@ -771,39 +1043,77 @@ theorem acc_bnd (c : Ctx) (e : Expr) : ∀ (m : Mode) (n : Nat), Bnd n (acc c e 
   | lit v => intro m n; cases m <;> exact Bnd.nil n
   | var x =>
     intro m n
-    cases m <;> exact (Bnd.nil n).consAt x _ 0
+    cases m with
+    | subs => exact Bnd.nil n
+    | val => exact (Bnd.nil n).consAt x _ 0
+    | elem k => exact (Bnd.nil n).consAt x _ 0
+    | spine ko mask s => exact (Bnd.nil n).consAt x _ 0
   | idx1 a i ih =>
     intro m n
     cases m with
     | val => exact (ih .val n).snoc a .read 1
     | elem k => exact (ih .val n).consAt a k 0
-    | spine ko s => exact (ih .val n).snoc a .read 1
+    | subs => exact ih .val n
+    | spine ko mask s => exact (ih .val n).snoc a .read 1
   | idx2 a i j ihi ihj =>
     intro m n
     have h := (ihi .val n).append (ihj .val _)
     cases m with
     | val => exact h.snoc a .read 2
     | elem k => exact h.consAt a k 0
-    | spine ko s => exact h.snoc a .read 2
+    | subs => exact h
+    | spine ko mask s => exact h.snoc a .read 2
   | idxs a cnt is ih =>
     intro m n
     cases m with
     | val => exact (ih .val n).snoc a .read cnt
     | elem k => exact (ih .val n).consAt a k 0
-    | spine ko s => exact (ih .val n).snoc a .read cnt
-  | un op e ih => intro m n; cases m <;> exact ih .val n
-  | bin op a b iha ihb => intro m n; cases m <;> exact (iha .val n).append (ihb .val _)
-  | intr k args ih => intro m n; cases m <;> exact ih _ n
-  | fcall p f args ih => intro m n; cases m <;> exact (ih _ n).succ
+    | subs => exact ih .val n
+    | spine ko mask s => exact (ih .val n).snoc a .read cnt
+  | un op e ih =>
+    intro m n
+    cases m with
+    | subs => exact Bnd.nil n
+    | val => exact ih .val n
+    | elem k => exact ih .val n
+    | spine ko mask s => exact ih .val n
+  | bin op a b iha ihb =>
+    intro m n
+    cases m with
+    | subs => exact Bnd.nil n
+    | val => exact (iha .val n).append (ihb .val _)
+    | elem k => exact (iha .val n).append (ihb .val _)
+    | spine ko mask s => exact (iha .val n).append (ihb .val _)
+  | intr k args ih =>
+    intro m n
+    cases m with
+    | subs => exact Bnd.nil n
+    | val => exact ih _ n
+    | elem k => exact ih _ n
+    | spine ko mask s => exact ih _ n
+  | fcall p f args ih =>
+    intro m n
+    cases m with
+    | subs => exact Bnd.nil n
+    | val => exact (ih _ n).succ
+    | elem k => exact (ih _ n).succ
+    | spine ko mask s => exact (ih _ n).succ
   | nil => intro m n; cases m <;> exact Bnd.nil n
   | cons e rest ihe ihr =>
     intro m n
     cases m with
+    | subs => exact Bnd.nil n
     | val => exact (ihe .val n).append (ihr .val _)
     | elem k => exact (ihe .val n).append (ihr .val _)
-    | spine ko s =>
+    | spine ko mask s =>
       cases s with
-      | true => simpa only [acc, if_true] using ihr (.spine ko false) n
+      | true =>
+        simp only [acc, if_true]
+        by_cases hs : c.rule.inqSubs = true
+        · simp only [hs, if_true]
+          exact (ihe .subs n).append (ihr _ _)
+        · simp only [hs, Bool.false_eq_true, if_false]
+          exact (Bnd.nil n).append (ihr _ _)
       | false =>
         simp only [acc, Bool.false_eq_true, if_false]
         exact (ihe _ n).append (ihr _ _)
